@@ -104,6 +104,7 @@ func runC20(c *Ctx) {
 	c.rule("watch-reverse-translates", "the concrete watch arguments handed to a wrapped watcher declare (selection depth 1, not promoted from the embedded original) every WatchArgs method that carries a reflect.Value; each reverse-translates the value with the transformer whose TranslateType produced the inner type, returns the error if that fails, and forwards to the same-named method of the wrapped arguments", 3)
 	c.rule("no-self-call", "no wrapper method calls itself", 1)
 	c.rule("blank-delegation", "Blank.Value delegates exactly when an inner source is set, else returns a fresh zero of the requested type; SetSource refuses to replace a watching inner source before writing any field; Done forwards exactly when the inner source is not a Watcher and watch arguments are present; the inner Watch gets the saved Dials watch context, type and arguments", 5)
+	c.rule("setsource-order", "(shared with C07) Blank.SetSource assigns the inner source only after s.Value succeeded (a failed SetSource must not install the source), reports exactly that value with its own context, returns nil only after the report did, and starts the inner Watch afterwards", 4)
 	c.rule("blank-locking", "every access to Blank.inner/wa/t/watchCtx is dominated by b.mu.Lock() in the same function (one documented exception: the nil-source error message)", 8)
 	c.rule("reformat-source", "ReformatDialsTagSource wraps the given source with a transforming source whose mangler reformats the `dials` tag", 1)
 
@@ -302,6 +303,7 @@ func runC20(c *Ctx) {
 		}
 		c.check(okR, "reformat-source", relName(rf), rf.Pos(), "wraps the given source with a reformatter of the `dials` tag", "ReformatDialsTagSource does not wrap the given source with a `dials`-tag reformatter")
 	}
+	c07SetSourceOrder(c)
 }
 
 func c20Blank(c *Ctx) {
